@@ -1047,7 +1047,13 @@ def exec_cli(plan, tree, log=None):
                 req2 = dict(oracle_req, source=nxt)
                 exp2 = oracle.call("cli_expect", req2)
                 if not exp2["ok"]:
+                    # the variant is not a valid program (e.g. the renamed parameter now duplicates another one):
+                    # put back what the path held, so that later invocations are compared with the right text
                     log.count("rewrite_variant_declined")
+                    with open(fpath, "w", encoding="utf-8") as f:
+                        f.write(cur)
+                    t = 1700000000 if (rw["same_mtime"] or step == 0) else 1700000000 + 100 * step
+                    os.utime(fpath, (t, t))
                     break
                 st2, out2, err2 = run_cli_process(plan["ver"], plan["hashseed"], argv, tree, workdir, extra_path)
                 log.messages += 1
